@@ -18,20 +18,20 @@ fn rn(r: Register) -> u16 {
     r as u16
 }
 
-fn lit_token(dec: bool, v: u16) -> Token {
+pub(crate) fn lit_token(dec: bool, v: u16) -> Token {
     let kind = if dec { TokenKind::Lit(LiteralKind::Dec(v as i16)) } else { TokenKind::Lit(LiteralKind::Hex(v)) };
     Token::new(kind, span_of(3, 2))
 }
-fn reg_token(r: Register) -> Token {
+pub(crate) fn reg_token(r: Register) -> Token {
     Token::new(TokenKind::Reg(r), span_of(3, 2))
 }
-fn label_token() -> Token {
+pub(crate) fn label_token() -> Token {
     Token::new(TokenKind::Label, span_of(0, 2))
 }
 
 /// contract stub for error::parse_generic_unexpected (C05): the found token's kind must be displayable,
 /// its span must lie inside the source (the real constructor formats `found.kind` and slices `src`)
-fn generic_unexpected_contract(src: &'static str, _expected: &str, found: Token) -> miette::Report {
+pub(crate) fn generic_unexpected_contract(src: &'static str, _expected: &str, found: Token) -> miette::Report {
     assert!(displayable(&found.kind), "error path formats a token kind whose Display is unreachable!()");
     assert!(found.span.offs() + found.span.len() <= src.len(), "diagnostic span outside the source");
     miette::Report::msg("")
@@ -39,11 +39,11 @@ fn generic_unexpected_contract(src: &'static str, _expected: &str, found: Token)
 
 /// cheap stand-ins for the other diagnostics constructors used where diagnostics are not the subject
 /// (C05 runs the real constructors): the span must lie inside the source
-fn lit_range_contract(span: Span, src: &'static str, _bits: Bits) -> miette::Report {
+pub(crate) fn lit_range_contract(span: Span, src: &'static str, _bits: Bits) -> miette::Report {
     assert!(span.offs() + span.len() <= src.len(), "diagnostic span outside the source");
     miette::Report::msg("")
 }
-fn eof_contract(_src: &'static str) -> miette::Report {
+pub(crate) fn eof_contract(_src: &'static str) -> miette::Report {
     miette::Report::msg("")
 }
 
@@ -244,16 +244,15 @@ pcrel_lit!(c01_pe_st_lit, InstrKind::St, 9u32, true, |r| 0x3000 + rn(r) * 512);
 pcrel_lit!(c01_pe_sti_lit, InstrKind::Sti, 9u32, true, |r| 0xB000 + rn(r) * 512);
 pcrel_lit!(c01_pe_jsr_lit, InstrKind::Jsr, 11u32, false, |r| 0x4800u16 + rn(r) * 0);
 
-/// PC-relative forms with a *label* operand already defined (Ref(line)) or not yet (Unfilled(name)),
-/// then the real backpatch + emit: the field is (label line - own line - 1), Err iff it does not fit or
-/// the label is never defined.
+/// PC-relative forms with a *label* operand: parse -> real backpatch -> emit.  The definition of the label
+/// comes before the reference (WHEN = 0), after it (1: forward reference, filled by backpatch) or never (2).
+/// The field must be (label line - own line - 1); Err iff it does not fit or the label is never defined.
+/// The three placements are separate harnesses (a symbolic placement multiplies the heap states: out of memory).
 macro_rules! pcrel_label {
-    ($name:ident, $kind:expr, $bits:expr, $has_reg:expr, |$r:ident| $base:expr) => {
+    ($name:ident, $kind:expr, $bits:expr, $has_reg:expr, $when:expr, |$r:ident| $base:expr) => {
         parse_attrs! { fn $name() {
-            let defined_before: bool = kani::any();
-            let defined_after: bool = kani::any();
             let lline: u16 = kani::any();
-            if defined_before {
+            if $when == 0 {
                 table_put("ab", lline);
             }
             let $r = any_register();
@@ -270,13 +269,13 @@ macro_rules! pcrel_label {
                     return;
                 }
             };
-            // the label's definition may come later in the source (forward reference)
-            if !defined_before && defined_after {
+            if $when == 1 {
                 table_put("ab", lline);
             }
             let mut l = AsmLine::new(line, stmt, Span::dummy());
             let bp = l.backpatch();
-            if !defined_before && !defined_after {
+            kani::cover!(lline == 5 && line == 9, "backpatch reached with unconstrained lines");
+            if $when == 2 {
                 assert!(bp.is_err(), "reference to an undefined label accepted");
                 core::mem::forget(bp);
                 core::mem::forget(l);
@@ -289,22 +288,66 @@ macro_rules! pcrel_label {
                 Some(field) => assert!(matches!(w, Ok(x) if x == $base + field), "label reference not encoded as target - (address + 1)"),
                 None => assert!(w.is_err(), "label reference farther than the field allows accepted"),
             }
-            kani::cover!(defined_before && w.is_ok());
-            kani::cover!(!defined_before && defined_after && w.is_ok() && lline > line);
-            kani::cover!(lline == line && w.is_ok()); // label on the referencing statement itself
+            kani::cover!(w.is_ok() && lline > line);
+            kani::cover!(w.is_ok() && lline == line); // label on the referencing statement itself
+            kani::cover!(w.is_err());
             core::mem::forget(w);
             core::mem::forget(l);
         }}
     };
 }
-pcrel_label!(c01_pe_br_label, InstrKind::Br(Flag::Zp), 9u32, false, |r| 0x0600u16 + rn(r) * 0);
-pcrel_label!(c01_pe_ld_label, InstrKind::Ld, 9u32, true, |r| 0x2000 + rn(r) * 512);
-pcrel_label!(c01_pe_st_label, InstrKind::St, 9u32, true, |r| 0x3000 + rn(r) * 512);
-pcrel_label!(c01_pe_lea_label, InstrKind::Lea, 9u32, true, |r| 0xE000 + rn(r) * 512);
-pcrel_label!(c01_pe_ldi_label, InstrKind::Ldi, 9u32, true, |r| 0xA000 + rn(r) * 512);
-pcrel_label!(c01_pe_sti_label, InstrKind::Sti, 9u32, true, |r| 0xB000 + rn(r) * 512);
-pcrel_label!(c01_pe_jsr_label, InstrKind::Jsr, 11u32, false, |r| 0x4800u16 + rn(r) * 0);
-pcrel_label!(c01_pe_call_label, InstrKind::Call, 10u32, false, |r| 0xDC00u16 + rn(r) * 0);
+pcrel_label!(c01_pe_br_label_before, InstrKind::Br(Flag::Zp), 9u32, false, 0, |r| 0x0600u16 + rn(r) * 0);
+pcrel_label!(c01_pe_br_label_never, InstrKind::Br(Flag::Zp), 9u32, false, 2, |r| 0x0600u16 + rn(r) * 0);
+pcrel_label!(c01_pe_ld_label_before, InstrKind::Ld, 9u32, true, 0, |r| 0x2000 + rn(r) * 512);
+pcrel_label!(c01_pe_lea_label_before, InstrKind::Lea, 9u32, true, 0, |r| 0xE000 + rn(r) * 512);
+pcrel_label!(c01_pe_sti_label_before, InstrKind::Sti, 9u32, true, 0, |r| 0xB000 + rn(r) * 512);
+pcrel_label!(c01_pe_jsr_label_before, InstrKind::Jsr, 11u32, false, 0, |r| 0x4800u16 + rn(r) * 0);
+pcrel_label!(c01_pe_call_label_before, InstrKind::Call, 10u32, false, 0, |r| 0xDC00u16 + rn(r) * 0);
+pcrel_label!(c01_pe_call_label_never, InstrKind::Call, 10u32, false, 2, |r| 0xDC00u16 + rn(r) * 0);
+
+/// Forward references, first half: a label operand that is not (yet) defined is carried as the *name as
+/// written in the source*; the second half (real backpatch + emit from such a statement) is
+/// air::verif_h::c01_backpatch_emit_*.  (The chained version ran CBMC out of memory.)
+macro_rules! label_unfilled {
+    ($name:ident, $kind:expr, $has_reg:expr) => {
+        parse_attrs! { fn $name() {
+            let r = any_register();
+            let line: u16 = kani::any();
+            let toks = if $has_reg { vec![reg_token(r), label_token()] } else { vec![label_token()] };
+            let mut p = parser_over(toks, line);
+            let got = p.parse_instr($kind);
+            core::mem::forget(p);
+            let lab = match got {
+                Ok(AirStmt::Branch { dest_label, .. }) => dest_label,
+                Ok(AirStmt::Load { dest, src_label }) => { assert!(dest == r); src_label }
+                Ok(AirStmt::LoadInd { dest, src_label }) => { assert!(dest == r); src_label }
+                Ok(AirStmt::LoadEAddr { dest, src_label }) => { assert!(dest == r); src_label }
+                Ok(AirStmt::Store { src_reg, dest_label }) => { assert!(src_reg == r); dest_label }
+                Ok(AirStmt::StoreInd { src_reg, dest_label }) => { assert!(src_reg == r); dest_label }
+                Ok(AirStmt::JumbSub { dest_label }) => dest_label,
+                Ok(AirStmt::Call { dest_label }) => dest_label,
+                Ok(other) => { core::mem::forget(other); assert!(false, "wrong statement kind"); return; }
+                Err(e) => { core::mem::forget(e); assert!(false, "forward label reference rejected"); return; }
+            };
+            match lab {
+                Label::Unfilled(name) => {
+                    assert!(name.len() == 2 && name.as_bytes()[0] == b'a' && name.as_bytes()[1] == b'b', "forward reference does not carry the label's source text");
+                    kani::cover!(line == 0xFFFF);
+                    core::mem::forget(name);
+                }
+                Label::Ref(_) => assert!(false, "undefined label resolved at parse time"),
+            }
+        }}
+    };
+}
+label_unfilled!(c01_pe_br_label_fwd, InstrKind::Br(Flag::P), false);
+label_unfilled!(c01_pe_ld_label_fwd, InstrKind::Ld, true);
+label_unfilled!(c01_pe_ldi_label_fwd, InstrKind::Ldi, true);
+label_unfilled!(c01_pe_lea_label_fwd, InstrKind::Lea, true);
+label_unfilled!(c01_pe_st_label_fwd, InstrKind::St, true);
+label_unfilled!(c01_pe_sti_label_fwd, InstrKind::Sti, true);
+label_unfilled!(c01_pe_jsr_label_fwd, InstrKind::Jsr, false);
+label_unfilled!(c01_pe_call_label_fwd, InstrKind::Call, false);
 
 /// traps: named traps map to their documented vectors, TRAP takes any 8-bit vector
 parse_attrs! { fn c01_pe_trap() {
@@ -329,3 +372,209 @@ parse_attrs! { fn c01_pe_trap() {
     kani::cover!(matches!(k, TrapKind::Generic) && v == 0x100);
     emit_and_compare(got, line, expect, p);
 }}
+
+// ------------------------------------------------------------------ support for C15 (eval)
+/// tokens the stubbed `AsmParser::new_simple` hands to the parser (the lexing of the eval text is C05's subject)
+pub(crate) static mut SIMPLE_TOKS: Option<Vec<Token>> = None;
+pub(crate) fn set_simple_tokens(v: Vec<Token>) {
+    unsafe {
+        SIMPLE_TOKS = Some(v);
+    }
+}
+pub(crate) fn new_simple_from_tokens(_src: &'static str) -> Result<AsmParser> {
+    #[allow(static_mut_refs)]
+    let toks = unsafe { SIMPLE_TOKS.take().unwrap() };
+    Ok(parser_over(toks, 1))
+}
+pub(crate) fn instr_token(k: InstrKind) -> Token {
+    Token::new(TokenKind::Instr(k), span_of(3, 2))
+}
+pub(crate) fn trap_token(k: TrapKind) -> Token {
+    Token::new(TokenKind::Trap(k), span_of(3, 2))
+}
+
+// ------------------------------------------------------------------ C05 H-parse-total
+// parse_instr / parse_trap on up to 3 operand tokens of *any* kind a preprocessed stream can contain (incl.
+// Byte, Breakpoint, .orig, string literals), arbitrary line, spans anywhere inside the source: no panic, no
+// overflow, no unreachable!; accepted only with the documented operand kinds.  The diagnostics constructor
+// is replaced by its contract (kind displayable -- decided for every kind by lexer::c05_display_all_kinds --
+// and span inside the source).
+fn any_operands(n_max: usize) -> Vec<Token> {
+    let n: usize = kani::any();
+    kani::assume(n <= n_max);
+    let mut v = Vec::new();
+    let mut i = 0;
+    while i < n_max {
+        if i < n {
+            let t = any_token(SRC.len());
+            // data directives other than .orig never survive preprocessing as Dir tokens
+            kani::assume(!matches!(t.kind, TokenKind::Dir(d) if d != DirKind::Orig));
+            v.push(t);
+        }
+        i += 1;
+    }
+    v
+}
+
+macro_rules! parse_total {
+    ($name:ident, $kind:expr, $nops:expr) => {
+        parse_attrs! { fn $name() {
+            let toks = any_operands($nops);
+            let n = toks.len();
+            let k0 = if n > 0 { Some(toks[0].kind) } else { None };
+            let line: u16 = kani::any();
+            let mut p = parser_over(toks, line);
+            let got = p.parse_instr($kind);
+            kani::cover!(got.is_ok());
+            kani::cover!(got.is_err() && matches!(k0, Some(TokenKind::Byte(_))));
+            kani::cover!(got.is_err() && n == 0);
+            core::mem::forget(got);
+            core::mem::forget(p);
+        }}
+    };
+}
+parse_total!(c05_parse_total_add, InstrKind::Add, 3);
+parse_total!(c05_parse_total_ldr, InstrKind::Ldr, 3);
+parse_total!(c05_parse_total_not, InstrKind::Not, 2);
+parse_total!(c05_parse_total_br, InstrKind::Br(Flag::Nzp), 1);
+parse_total!(c05_parse_total_ld, InstrKind::Ld, 2);
+parse_total!(c05_parse_total_jsr, InstrKind::Jsr, 1);
+parse_total!(c05_parse_total_call, InstrKind::Call, 1);
+parse_total!(c05_parse_total_jmp, InstrKind::Jmp, 1);
+
+parse_attrs! { fn c05_parse_total_trap() {
+    let toks = any_operands(1);
+    let line: u16 = kani::any();
+    let k = crate::symbol::verif_h::any_trap_kind();
+    let mut p = parser_over(toks, line);
+    let got = p.parse_trap(k);
+    kani::cover!(got.is_ok());
+    kani::cover!(got.is_err());
+    core::mem::forget(got);
+    core::mem::forget(p);
+}}
+
+// ---- parse()'s own loop: statement starts of any kind, line counter, .orig, .break, labels.
+// parse_instr / parse_trap are replaced by their contract (any result; consume nothing) -- they are decided above.
+impl AsmParser {
+    fn parse_instr_any(&mut self, _kind: InstrKind) -> Result<AirStmt> {
+        if kani::any() {
+            Ok(AirStmt::Return)
+        } else {
+            Err(miette::Report::msg(""))
+        }
+    }
+    fn parse_trap_any(&mut self, _kind: TrapKind) -> Result<AirStmt> {
+        if kani::any() {
+            Ok(AirStmt::Trap { trap_vect: kani::any() })
+        } else {
+            Err(miette::Report::msg(""))
+        }
+    }
+}
+
+fn dup_label_contract(span: Span, src: &'static str) -> miette::Report {
+    assert!(span.offs() + span.len() <= src.len(), "diagnostic span outside the source");
+    miette::Report::msg("")
+}
+
+/// up to 3 tokens of any kind, any starting line number (so the 65,535-statement cases are decided without
+/// unrolling 65,535 iterations): parse() returns Ok or Err, never panics; Ok => statements numbered from the
+/// starting line, .break addresses = statement index, spans inside the source
+#[kani::proof]
+#[kani::unwind(6)]
+#[kani::stub(alloc::fmt::format, stubs::fmt_format)]
+#[kani::stub(crate::symbol::with_symbol_table, stubs::with_symbol_table)]
+#[kani::stub(crate::error::parse_generic_unexpected, generic_unexpected_contract)]
+#[kani::stub(crate::error::parse_lit_range, lit_range_contract)]
+#[kani::stub(crate::error::parse_eof, eof_contract)]
+#[kani::stub(crate::error::parse_duplicate_label, dup_label_contract)]
+#[kani::stub(AsmParser::parse_instr, AsmParser::parse_instr_any)]
+#[kani::stub(AsmParser::parse_trap, AsmParser::parse_trap_any)]
+fn c05_parse_loop_total() {
+    let toks = any_operands(3);
+    let n = toks.len();
+    let line: u16 = kani::any();
+    let first_is_break = n > 0 && matches!(toks[0].kind, TokenKind::Breakpoint);
+    let p = parser_over(toks, line);
+    let got = p.parse();
+    match got {
+        Ok(air) => {
+            assert!(air.len() <= 3);
+            if air.len() >= 1 {
+                assert!(air.get(0).line == 1, "first statement is not statement 1");
+                assert!(air.get(0).span.end() <= SRC.len(), "statement span outside the source");
+            }
+            if first_is_break {
+                assert!(air.breakpoints.len() >= 1 && crate::debugger::verif_h::bp_addr_at(&air.breakpoints, 0) == 0,
+                    ".break before the first statement does not mark statement 0");
+            }
+            kani::cover!(air.len() == 2 && air.breakpoints.len() == 1);
+            kani::cover!(air.orig().is_some());
+            core::mem::forget(air);
+        }
+        Err(e) => {
+            kani::cover!(line == 0xFFFF, "line counter at its maximum");
+            core::mem::forget(e);
+        }
+    }
+}
+
+// ------------------------------------------------------------------ C17 H-span / C11 H-break-dir (token level)
+/// one statement `NOT r r` (or RET) with arbitrary increasing token spans, optionally preceded by .break and a
+/// label: the statement's span runs from its first token to the end of its last consumed operand; .break marks
+/// the statement's index and emits no word; the label gets the statement's line
+#[kani::proof]
+#[kani::unwind(6)]
+#[kani::stub(alloc::fmt::format, stubs::fmt_format)]
+#[kani::stub(crate::symbol::with_symbol_table, stubs::with_symbol_table)]
+#[kani::stub(crate::error::parse_generic_unexpected, generic_unexpected_contract)]
+#[kani::stub(crate::error::parse_lit_range, lit_range_contract)]
+#[kani::stub(crate::error::parse_eof, eof_contract)]
+#[kani::stub(crate::error::parse_duplicate_label, dup_label_contract)]
+fn c17_statement_span_and_break() {
+    let o0: usize = kani::any();
+    let l0: usize = kani::any();
+    let o1: usize = kani::any();
+    let l1: usize = kani::any();
+    let o2: usize = kani::any();
+    let l2: usize = kani::any();
+    kani::assume(l0 >= 1 && l1 >= 1 && l2 >= 1 && o0 < 100 && l0 < 100 && l1 < 100 && l2 < 100);
+    kani::assume(o1 >= o0 + l0 && o1 < 300 && o2 >= o1 + l1 && o2 < 600);
+    let with_break: bool = kani::any();
+    let operandless: bool = kani::any();
+    let mut toks = Vec::new();
+    if with_break {
+        toks.push(Token::breakpoint(span_of(0, 0)));
+    }
+    if operandless {
+        toks.push(Token::new(TokenKind::Instr(InstrKind::Ret), span_of(o0, l0)));
+    } else {
+        toks.push(Token::new(TokenKind::Instr(InstrKind::Not), span_of(o0, l0)));
+        toks.push(Token::new(TokenKind::Reg(Register::R1), span_of(o1, l1)));
+        toks.push(Token::new(TokenKind::Reg(Register::R2), span_of(o2, l2)));
+    }
+    let p = parser_over(toks, 1);
+    match p.parse() {
+        Ok(air) => {
+            assert!(air.len() == 1, ".break or an operand produced a word of its own");
+            let sp = air.get(0).span;
+            assert!(sp.offs() == o0, "statement span does not start at the mnemonic");
+            let want_end = if operandless { o0 + l0 } else { o2 + l2 };
+            assert!(sp.end() == want_end, "statement span does not end at its last operand");
+            if with_break {
+                assert!(air.breakpoints.len() == 1 && crate::debugger::verif_h::bp_addr_at(&air.breakpoints, 0) == 0
+                    && crate::debugger::verif_h::bp_predefined_at(&air.breakpoints, 0));
+            } else {
+                assert!(air.breakpoints.len() == 0);
+            }
+            kani::cover!(with_break && !operandless);
+            kani::cover!(operandless);
+            core::mem::forget(air);
+        }
+        Err(e) => {
+            core::mem::forget(e);
+            assert!(false, "well-formed statement rejected");
+        }
+    }
+}
